@@ -371,10 +371,16 @@ def _report(check, prop, tier, seed_, records, extras, harness_errors, watch, op
     if not records:
         print(f"HARNESS-ERROR property={prop}: no runs executed")
         return core.EXIT_HARNESS
-    if options.get("nondeterministic_runs"):
-        print(f"HARNESS-NONDETERMINISM property={prop}: runs {options['nondeterministic_runs']} gave another "
+    diverged = options.get("nondeterministic_runs")
+    if diverged and not any(v.get("replay") is not None for _, v in new):
+        print(f"HARNESS-NONDETERMINISM property={prop}: runs {diverged} gave another "
               "event digest when re-executed; nothing is claimed")
         return core.EXIT_NONDET
+    if diverged:
+        # a violation whose replay file reproduces in a fresh process stands on its own; the divergence is
+        # reported with it (code whose behaviour depends on object addresses shows both)
+        print(f"NOTE property={prop}: runs {diverged} gave another event digest when re-executed "
+              "(behaviour of the code under test depends on something outside seed and run)")
     if new:
         seen = set()
         nondet = False
